@@ -46,6 +46,23 @@ def gen_case(rng, cid, mode):
         victim = rng.choice(conds[1:])
         victim["cond"] = dict(S.NOCOND) if rng.random() < 0.6 else dict(victim["cond"], n=victim["cond"]["n"] + 1)
         hs[rng.choice([1, 2])] = W.norm_handler({"kind": "imm", "sel": sib})
+    if rng.random() < 0.5:
+        # one variable constrained twice in the same parentheses (a range written as two conditions): both apply
+        tgt = hs[rng.choice([0, 1, 2])]["sel"]
+        cands = []
+
+        def find(n):
+            for i, c in enumerate(n["caps"]):
+                if c["name"] in ("a", "b", "p", "i") and c["cond"]["k"] in ("lt", "gt", "lte", "gte", "eq") and c["tag"] == 0:
+                    cands.append((n, i))
+            for k in n["kids"]:
+                find(k)
+        find(tgt)
+        if cands:
+            n, i = rng.choice(cands)
+            twin = copy.deepcopy(n["caps"][i])
+            twin["cond"] = S.cond(rng.choice(["lt", "gte", "gt", "lte"]), n=rng.randint(3, 37))
+            n["caps"].insert(i + rng.choice([0, 1]), twin)
     var = rng.choice(["a", "b", "i", "p"])
     s = c04.focused_on(rng, fns, var, conds=True)
     hs.insert(rng.randint(0, 3), W.norm_handler({"kind": "imm", "sel": s, "ovr": {"k": "const", "c": rng.randint(500, 999)}}))
